@@ -131,6 +131,12 @@ func c10Configs(run *vfRun, w *vfWorld) []c10Cfg {
 	add("cookie", c10Name(rng, 255), false, "path", "", "/app/x", false, "--cookie-path=/app/")
 	add("cookie", "__Host-sess", false, "secure+strict", "", "", true, "--cookie-secure=true", "--cookie-samesite=strict")
 	add("cookie", "_oauth2_proxy", false, "samesite-none", "", "", true, "--cookie-secure=true", "--cookie-samesite=none")
+	// cookie lengths move in steps of four (base64): paths of length 2, 3, 4 shift the constant part so that, together with
+	// "/", every residue — hence every exact length around the limit — is reached for these names
+	for _, pth := range []string{"/a", "/ab", "/abc"} {
+		add("cookie", n256, false, "residue"+pth, "", pth+"/x", false, "--cookie-path="+pth)
+		add("cookie", "_oauth2_proxy", false, "residue"+pth, "", pth+"/x", false, "--cookie-path="+pth)
+	}
 	add("cookie", "_oauth2_proxy", false, "no-httponly", "", "", false, "--cookie-httponly=false")
 	add("cookie", "_oauth2_proxy", false, "expire0", "", "", false, "--cookie-expire=0")
 	add("cookie", "_oauth2_proxy", false, "expire-30m", "", "", false, "--cookie-expire=30m")
@@ -746,7 +752,8 @@ func TestVerif_C10(t *testing.T) {
 		"--session-cookie-minimal is excluded (it strips tokens by design)")
 	// the cookie store allocates lz4 block buffers and hash tables per call; with the race detector the default GC pace
 	// spends most of the time in the kernel. A laxer pace changes nothing but the wall time.
-	defer debug.SetGCPercent(debug.SetGCPercent(800))
+	defer debug.SetGCPercent(debug.SetGCPercent(400))
+	defer debug.SetMemoryLimit(debug.SetMemoryLimit(3 << 30)) // keeps the laxer pace from growing the heap without bound
 	w := vfNewWorld(t)
 	defer w.Close()
 	st := c10NewStream(run.Env.Seed*31+7, 140000)
@@ -781,7 +788,12 @@ func TestVerif_C10(t *testing.T) {
 	t1 := time.Now()
 	// one pool over all configurations; a fixed permutation spreads the expensive histories over the workers
 	perm := rand.New(rand.NewSource(99)).Perm(len(jobs.list))
-	vfParallel(len(perm), 16, func(i int) { jobs.list[perm[i]]() })
+	vfParallel(len(perm), 16, func(i int) {
+		if run.Violations() > 1000 {
+			return // the verdict is settled and the witnesses are on disk; do not spend minutes on more of the same
+		}
+		jobs.list[perm[i]]()
+	})
 	run.Extra("phase_seconds", map[string]float64{"setup": t1.Sub(t0).Seconds(), "histories": time.Since(t1).Seconds()})
 	run.Extra("histories", len(jobs.list))
 	run.Extra("max_set_cookie_line_bytes", atomic.LoadInt64(&c10MaxLine))
@@ -879,7 +891,7 @@ func c10Sequences(jobs *c10Jobs, run *vfRun, cfg *c10Cfg, p *vfProxy, st *c10Str
 	}
 	rng := rand.New(rand.NewSource(run.Env.Seed*6151 + int64(ci)*13))
 	pick := th.pickSizes(rng, 8)
-	nRand := run.Env.Pick(40, 400)
+	nRand := run.Env.Pick(30, 400)
 	if cfg.Heavy {
 		nRand = run.Env.Pick(150, 3000)
 	}
